@@ -130,6 +130,6 @@ func main() {
 		}
 	}
 	b, _ := json.Marshal(map[string]any{"scenario": "race-pass", "executions": runs, "findings": out, "exhaustive": true,
-		"note": fmt.Sprintf("free-running -race pass: 13 scenarios x 16 goroutines per thread body x %d iterations x GOMAXPROCS {1,4,16}; a sample of OS schedules", iters)})
+		"note": fmt.Sprintf("free-running -race pass: %d scenarios x 16 goroutines per thread body x %d iterations x GOMAXPROCS {1,4,16}; a sample of OS schedules", len(scen.All()), iters)})
 	fmt.Println(string(b))
 }
